@@ -269,6 +269,8 @@ def make_iterate(case):
     from pygradflow.iterate import Iterate
     spec = Spec.from_json(case["spec"])
     params_kw = dict(active_tol=case["atol"])
+    if case.get("ntol") is not None:
+        params_kw["newton_tol"] = case["ntol"]      # a tolerance of the inner iteration: no residual depends on it
     if case["trans"]:
         from pygradflow.transform import Transformation
         prob = QuadProblem(spec, fmt=case["fmt"])
@@ -341,7 +343,8 @@ class IterateUnit(Unit):
             cases.append({"spec": sj, "sc": sc, "trans": trans, "atol": atol, "x": x, "y": y,
                           "rho": g.rng.choice([0.0, 0.5, 1.0, 2.0, 3.0]),
                           "ftol": g.rng.choice([0.0, 0.25, 1.0, 4.0]), "itol": g.rng.choice([0.0, 0.5, 2.0, 16.0]),
-                          "fmt": g.rng.choice(["coo", "csr", "csc"])})
+                          "fmt": g.rng.choice(["coo", "csr", "csc"]),
+                          "ntol": [None, None, 1.0, 4.0][len(cases) % 4]})
         return cases
 
     def impl(self, case):
